@@ -162,11 +162,11 @@ func checkC17(c *Ctx, r *Report) {
 	}
 	effectsPositiveControls(c, r)
 	r.Floor("positive_controls", 5)
-	r.Floor("package_vars_amd64", 30)
-	r.Floor("api_entry_points_amd64", 25)
-	r.Floor("asm_routines_amd64", 15)
-	r.Floor("asm_routines_arm64", 12)
-	r.Floor("asm_call_sites_amd64", 8)
+	r.Floor("package_vars_amd64", 12)
+	r.Floor("api_entry_points_amd64", 15)
+	r.Floor("asm_routines_amd64", 8)
+	r.Floor("asm_routines_arm64", 6)
+	r.Floor("asm_call_sites_amd64", 3)
 }
 
 // reachableFromAPI: functions reachable from API entry points through static calls and repo interface implementations.
